@@ -158,6 +158,9 @@ package internal
 //@   assume def slot: slot != nil && (armed(slot, PollerReadEvent) ==> slot.Handlers[0] != nil) &&
 //@          (armed(slot, PollerWriteEvent) ==> slot.Handlers[1] != nil)
 //@   loop 1 invariant pInv(p) && 0 <= i && n <= len(p.events)
+//@   // posted handlers are dispatched for the waker's event only: every other entry belongs to an
+//@   // I/O slot and goes through the readiness tests below
+//@   assert call dispatch: [waker-only] slot.Fd == p.waker.fd
 //@   // every entry the kernel returned is looked at, in order: none skipped, none twice
 //@   loop 1 starts i == 0
 //@   loop 1 step i == i$head + 1
